@@ -138,6 +138,7 @@ def bug_switch_check(name, module, cfg, switch, expect, timeout=300):
     open(tmp, "w").write(txt.replace(f"{switch} = {old}", f"{switch} = {new}"))
     rc, out, wall = tlc(name, module, tmp, workers=8, timeout=timeout)
     m = re.search(r"(Invariant (\w+) is violated|Action property (\w+) is violated|"
+                  r"Action property line \d+, col \d+ to line \d+, col \d+ of module \w+ is violated|"
                   r"Temporal properties were violated|Temporal property (\w+) was violated|"
                   r"Deadlock reached)", out)
     found = m.group(0) if m else None
@@ -346,6 +347,57 @@ def run_core_replay(outdir, seed0, nbeh, nproc, simulate, deadline=1800):
         for rs in ex.map(one, jobs):
             records += rs
     return records, total, len(maximal)
+
+
+def run_iter_replay(outdir, seed0, nproc, cfgs, deadline=1800):
+    """spec -> impl for the iterator model: behaviours of RainIter (spec/RainIter_Gen.tla; layout,
+    snapshot, cursor operations, expected position after each) generated by TLC - exhaustively, one
+    per distinct state of the iterator stack, or by simulation over a larger universe - are stepped
+    through the real MergingIterator / DatabaseIterator over real children by the `iterfmt` driver.
+    cfgs: list of (cfg file, extra TLC args)."""
+    shutil.rmtree(outdir, ignore_errors=True)
+    os.makedirs(outdir, exist_ok=True)
+    behs = []
+    for gi, (cfg, extra) in enumerate(cfgs):
+        rc, out, wall = tlc(f"geniter-{seed0}-{gi}", "RainIter_Gen.tla", cfg,
+                            workers=1 if extra else min(8, NCPU), timeout=900, heap="4g", extra=extra)
+        n0 = len(behs)
+        for line in out.splitlines():
+            m = re.match(r'<<"@@ITER", "(.*)">>$', line)
+            if m:
+                behs.append(m.group(1).encode().decode("unicode_escape"))
+        if len(behs) == n0 or "Error:" in out:
+            raise ToolError(f"TLC generated no behaviours of RainIter_Gen ({cfg}):\n" + "\n".join(out.splitlines()[-20:]))
+    # keep the behaviours of one layout together (the driver builds each layout once)
+    behs.sort(key=lambda b: b[:b.index('"trail"')])
+    nproc = max(1, min(nproc, len(behs) // 200 + 1))
+    per = (len(behs) + nproc - 1) // nproc
+    jobs = []
+    for i in range(nproc):
+        part = behs[i * per:(i + 1) * per]
+        if not part:
+            continue
+        fpath = f"{outdir}/behaviours_{i}.ndjson"
+        open(fpath, "w").write("\n".join(part) + "\n")
+        jobs.append((i, fpath))
+
+    def one(job):
+        i, fpath = job
+        sub = f"{outdir}/p{i}/part1"
+        cmd = [BIN, "iterfmt", "--behaviours", fpath, "--seed", str(seed0 + i), "--variants", "3", "--out", sub]
+        r = sh(cmd, timeout=deadline)
+        res_path = sub + "/results.json"
+        if not os.path.exists(res_path):
+            raise ToolError(f"driver produced no results: {' '.join(cmd)}\n{r.stdout[-2000:]}")
+        if r.returncode != 0:
+            raise ToolError(f"driver crashed rc={r.returncode}: {' '.join(cmd)}\n{r.stdout[-2000:]}")
+        return json.load(open(res_path))["runs"]
+
+    records = []
+    with cf.ThreadPoolExecutor(max_workers=len(jobs)) as ex:
+        for rs in ex.map(one, jobs):
+            records += rs
+    return records, len(behs)
 
 
 def validate_traces(files, module, cfg, nproc, tag, timeout=900):
@@ -646,7 +698,14 @@ PROPS = {
                                         "--compact-bias", "1"], quick=16, thorough=400),
               # cursors positioned inside blocks / tables that the tiny caches have evicted
               dict(driver="hist", args=["--nops", "60", "--per-file", "6", "--walks", "--small-caches",
-                                        "--max-iters", "3"], quick=16, thorough=400)]),
+                                        "--max-iters", "3"], quick=16, thorough=400),
+              # spec -> impl: every distinct state of the iterator model (exhaustive) + random
+              # behaviours over a larger universe, stepped through the real iterators
+              dict(driver="iterfmt", gen="iter", args=[], quick=1, thorough=1,
+                   cfgs_quick=[("MC_RainIter_gen.cfg", None),
+                               ("MC_RainIter_gensim.cfg", ["-simulate", "num=800", "-depth", "40"])],
+                   cfgs_thorough=[("MC_RainIter_gen.cfg", None), ("MC_RainIter_gen3.cfg", None),
+                                  ("MC_RainIter_gensim.cfg", ["-simulate", "num=40000", "-depth", "40"])])]),
     "C12": dict(
         design=[("MC_RainLog.tla", ["MC_RainLog_small.cfg", "MC_RainLog_realq.cfg"],
                  ["MC_RainLog_small.cfg", "MC_RainLog_deep.cfg", "MC_RainLog_real.cfg"])],
@@ -741,6 +800,7 @@ def check_prop(prop, tier, seed):
     # (B) drive the real code, validate traces
     nproc = min(12, NCPU)
     recs = []
+    direct = []
     extra = {}
     if inductive:
         extra["apalache_inductive_invariants"] = inductive
@@ -756,6 +816,27 @@ def check_prop(prop, tier, seed):
                                               deadline=1800 if tier == "quick" else 14400)
             extra["core_behaviours_generated_by_tlc"] = extra.get("core_behaviours_generated_by_tlc", 0) + ntotal
             extra["core_behaviours_replayed"] = extra.get("core_behaviours_replayed", 0) + nrun
+        elif w.get("gen") == "iter":
+            r, nbeh = run_iter_replay(outdir, seed0, nproc, w["cfgs_" + tier])
+            summ = [x for x in r if x.get("status") == "summary"]
+            extra["iterator_behaviours_generated_by_tlc"] = nbeh
+            extra["iterator_behaviours_replayed_on_real_iterators"] = sum(x["behaviours"] for x in summ)
+            extra["iterator_steps_compared"] = sum(x["steps"] for x in summ)
+            kinds = {}
+            for x in summ:
+                for kk, vv in x["child_kinds"].items():
+                    kinds[kk] = kinds.get(kk, 0) + vv
+            extra["iterator_child_kinds"] = kinds
+            for x in r:
+                if x.get("status") == "mismatch":
+                    direct.append({"seed": x["seed"], "check": "IterReplayDiffers", "replay": x["replay"],
+                                   "detail": {"diff": x["diff"], "variant": x["variant"], "keyset": x["keyset"],
+                                              "block": x["block"]}})
+            recs += [x for x in r if x.get("status") != "summary"]
+            log(f"[{prop}] iterfmt: {nbeh} behaviours of RainIter generated by TLC, "
+                f"{extra['iterator_behaviours_replayed_on_real_iterators']} replays, "
+                f"{extra['iterator_steps_compared']} positions compared, {len(direct)} differences")
+            continue
         elif w.get("gen") == "tlc":
             r, nsched = run_tlc_replay(outdir, seed0, runs, nproc,
                                        deadline=1800 if tier == "quick" else 14400,
@@ -798,11 +879,11 @@ def check_prop(prop, tier, seed):
         rejects += rj
         tstates += ts
     return finish(prop, tier, seed, t0, design, switches, recs, vruns, rejects, tstates, None,
-                  extra_cov=extra)
+                  extra_cov=extra, direct=direct)
 
 
 def finish(prop, tier, seed, t0, design, switches, recs, vruns, rejects, tstates, outdir,
-           extra_cov=None):
+           extra_cov=None, direct=None):
     known = load_known()
     by_seed = {r["seed"]: r for r in recs}
     if rejects:
@@ -876,6 +957,17 @@ def finish(prop, tier, seed, t0, design, switches, recs, vruns, rejects, tstates
     vdir = f"{OUT}/violations"
     os.makedirs(vdir, exist_ok=True)
     reported = set()
+    # behaviour replay (spec -> impl): the real code's observable outcome differs from the model's
+    for d in (direct or [])[:3]:
+        dst = f"{vdir}/{prop}_{d['check']}_{d['seed']}.json"
+        try:
+            shutil.copy(d["replay"], dst)
+        except Exception:
+            dst = d["replay"]
+        reported.add((d["seed"], None, d["check"]))
+        log(f"VIOLATION property={prop} replay={dst}")
+        log(f"  check={d['check']} detail={json.dumps(d['detail'])[:600]}")
+        rc = 1
     for vr, v in violations:
         seed_v = vr["seed"]
         if (seed_v, vr.get("tag"), v["check"]) in reported:
@@ -1013,6 +1105,19 @@ def replay(path):
     elif rp["driver"] == "sched":
         r = sh([BIN, "sched", "--seed", str(rp["seed"]), "--runs", "1", "--all", "--scenario",
                 rp["scenario"], "--out", outdir], timeout=900)
+    elif rp["driver"] == "iterfmt":
+        # one behaviour of the iterator model on one realisation of its layout
+        os.makedirs(outdir, exist_ok=True)
+        bf = f"{outdir}/behaviour.ndjson"
+        open(bf, "w").write(json.dumps(rp["behaviour"]) + "\n")
+        r = sh([BIN, "iterfmt", "--behaviours", bf, "--seed", str(rp["seed"]), "--variant", str(rp["variant"]),
+                "--keyset", str(rp["keyset"]), "--out", outdir], timeout=900)
+        res = json.load(open(f"{outdir}/results.json"))["runs"]
+        bad = [x for x in res if x.get("status") == "mismatch"]
+        for x in bad:
+            log("DIFFERS: " + json.dumps({"diff": x["diff"], "behaviour": x["behaviour"]}))
+        log(json.dumps(res[-1]))
+        return 1 if bad else 0
     elif rp["driver"] == "live":
         r = sh([BIN, "live", "--seed", str(rp["seed"]), "--runs", "1", "--ops", str(rp.get("ops", 150)),
                 "--jitter", str(rp.get("jitter", 0)), "--out", outdir], timeout=900)
